@@ -32,8 +32,10 @@ PROPS = {
           must_observe=['sorts_with_multiple_spills', 'injected_errors_propagated', 'rows_merged', 'spill_dir_checks'], leftover_is_violation=True),
  'C17': P('exploration',
           'cases = (subject, rows per upstream stream, upstream chunk scripts {k rows | 0 rows,nil | k rows+EOF}, destination-size script, '
-          'parameter, data seed) for 20 subjects: the Reader(shard, deps) of const, readerfunc, map, filter, flatmap, fold, head, writerfunc, '
-          'scan, reshuffle, reduce, cogroup; sliceio.MultiReader, FrameReader; exec multiReader and task-buffer reader (verif export); '
+          'parameter, data seed) for 24 subjects: the Reader(shard, deps) of const, readerfunc, map, filter, flatmap, fold, head, writerfunc, '
+          'scan, reshuffle, reduce, cogroup; sliceio.MultiReader, FrameReader; exec multiReader and task-buffer reader (verif export); the '
+          'decoding reader over a stream encoded in batches that follow the chunk script, spill readers (Spiller with SpillBatchSize 1,3,50,128), '
+          'and the decoding reader over a file-store and a memory-store partition; '
           'Scanner.Scan/Scanv incl. wrong arity/type. Bounded-exhaustive over sizes {0,1,2,3,5,6,127,128,129,300} x 9 chunk scripts x 8 '
           'destination scripts (quick: every 4th), plus seeded random cases. Oracle: row-level statement of each operator; 0<=n<=len(dst); '
           'canary rows beyond n intact on successful calls; frames delivered earlier unchanged at the end. Non-trivial: the case completed '
@@ -44,12 +46,13 @@ PROPS = {
           'optionally keys brute-forced to collide in HashWithSeed&7): every key sequence over the alphabet up to length L is fed to a '
           'combining frame (views at non-zero offset) and compacted; (b) random skewed streams into combining frames with mid-stream '
           'compactions; (c) random streams into the spilling combiner with spill thresholds 1..50 and larger, initial table sizes 1..128, '
-          'drained through a destination adversary or discarded. Oracle: map model with sum/xor/min. Non-trivial: group enumerated / table '
-          'resized / combiner spilled at least once.',
+          'drained through a destination adversary or discarded. Oracle: map model with sum/xor/min; the verif hook in the probe loop asserts that '
+          'a probe sequence ends within cap tries (a non-terminating probe is a violation, not a watchdog timeout). Non-trivial: group '
+          'enumerated / table resized / combiner spilled at least once.',
           must_observe=['key_sequences', 'table_resizes', 'combiners_that_spilled', 'spill_dir_checks'], leftover_is_violation=True),
  'C18': P('exploration',
-          'every (constructor, slice type, function signature) triple of the cross product: 8 function-taking constructors x 13 slice types '
-          '(prefix 1 and 2, unhashable and op-less keys) x ~700 signatures built with reflect.MakeFunc (exact, context-first, permuted, arity +-1, '
+          'every (constructor, slice type, function signature) triple of the cross product: 8 function-taking constructors x 18 slice types '
+          '(prefix 1, 2 and 3; unhashable and op-less keys in the first and in later key columns) x ~700 signatures built with reflect.MakeFunc (exact, context-first, permuted, arity +-1, '
           'interface-typed, variadic, accumulator-first, writer/reader shaped, 15 result lists, non-func values), plus structural constructors '
           '(Const, Prefixed, Head, Scan, Reshuffle, Reshard, Cogroup over all pairs). Exhaustive in that universe. Oracle: independent schema '
           'table (c18expected) + any panic must be a *typecheck.Error located at the calling line. Each Case is one (constructor, slice type) '
@@ -82,17 +85,24 @@ PROPS = {
           '{local p in 1,4,16; testsystem machine procs 1,2,4 x parallelism x max-load 0.3/0.95; machine combiners on/off; DoShuffleReaders on/off; '
           'chunk rows 1,2,4,8,128; sort canary 1,2,256; SpillBatchSize 1,3,128; Procs/Exclusive/Materialize pragmas at seed-chosen operators}. '
           'Oracle: canonicalised rows equal between all configurations and equal to the reference evaluator; counter vectors of result.Scope() '
-          'equal between configurations and equal to the increments counted by the recorder (programs with Head excluded). '
+          'equal between configurations and equal to the increments counted by the recorder (programs with Head excluded). A combiner-contention '
+          'family (6 / 60 programs: 4-16 shards x 1000-4000 rows x 40-3000 keys through Reduce, optionally Reshard+Reduce again) runs on local, '
+          'on testsystems with machine combiners and 4 resp. 2 procs per machine, and without machine combiners. '
           'Non-trivial: the program ran under both executor kinds.',
           nbatch=(8, 16), timeout=(900, 3400), vary_gomaxprocs=True,
-          must_observe=['configuration_pairs_compared', 'counter_vectors_compared', 'runs_with_nonzero_counters']),
+          must_observe=['configuration_pairs_compared', 'counter_vectors_compared', 'runs_with_nonzero_counters', 'combiner_contention_programs']),
  'C20': P('exploration',
           '(a) law cases = (number of scopes, operation sequence over incr / concurrent incr from 4 goroutines / merge / reset / reset(nil) / gob round '
-          'trip / read) checked after every step against a per-scope counter array model, 8 registered counters; (b) end-to-end cases = generated '
+          'trip / read) against a per-scope counter array model, 8 registered counters; the monitor reads either directly (Counter.Value, which '
+          'instantiates the counter in the scope read), through a Reset copy, through a gob round trip, or only at the end of the history, so that '
+          'operations also meet scopes without instances; every history ends with a direct read of all scopes; (b) end-to-end cases = generated '
           'programs whose user functions increment counters, run on local and testsystem executors: Counter.Value(result.Scope()) must equal the '
-          'increments counted independently by the recorder. Non-trivial: laws with >=1 merge/reset/gob combining two scopes; e2e run on both executors.',
+          'increments counted independently by the recorder; (c) result chains (24 / 400): a base result feeds 1-3 further Funcs (over earlier results '
+          'of the chain), Result.Scope() of every result is read before and after each step and must equal the increments of the runs whose tasks '
+          'are in its graph, each counted once. Non-trivial: laws with >=1 merge/reset/gob combining two scopes; e2e run on both executors; chain '
+          'with non-zero counters in base and a derived run.',
           variants={'quick': ['plain'], 'thorough': ['plain', 'race']}, nbatch=(8, 16),
-          must_observe=['law_op_merge', 'law_op_gob', 'law_op_reset', 'runs_with_nonzero_counters', 'increments_checked']),
+          must_observe=['law_op_merge', 'law_op_gob', 'law_op_reset', 'runs_with_nonzero_counters', 'increments_checked', 'chain_scope_reads', 'law_histories_read_end', 'law_histories_read_copy']),
  'C08': P('exploration',
           'cases = (program spec with random pragmas, machine combiners on/off, optionally a Result argument of an earlier invocation): each is '
           'compiled by the driver path, compiled again, and compiled from the gob-transported invocation with references substituted as '
@@ -100,13 +110,17 @@ PROPS = {
           'dependency wiring) must be identical, and a structural checker written against the slice DAG asserts: acyclic, unique names, one root '
           'per result shard, one task per shard per stage, no pipelining across shuffle/Materialize/Result, shard p wired to partition p of every '
           'producer shard, producer NumPartition == consumer shards. 12 fixed programs are compiled by every child process and their digests '
-          'compared across processes. Non-trivial: the graph has a shuffle edge or a reused Result.',
+          'compared across processes. A shared-producer family (784 programs) has a Materialize-pragma slice of 1-3 shards or a Result argument '
+          'consumed twice in one invocation - directly (none/filter/map) or by reshard 1/2/3/reshuffle, and by reshard 1/2/3, reshuffle, repartition, '
+          'cogroup, fold - joined by a Cogroup in both orders, with machine combiners on and off. Non-trivial: the graph has a shuffle edge or a '
+          'reused Result.',
           nbatch=(4, 16), must_observe=['graphs_compiled', 'tasks_checked', 'cross_process_values_compared']),
  'C12': P('exploration',
           'cases = (executor, base program, history of operations over the growing set of results): scan (1-4 concurrent scanners, optionally '
           'concurrent with the next operation), derive (a generated Func consuming one or two results through pipelined and redistributing '
           'operators), discard (optionally concurrent), kill a machine (testsystem). A fixed list runs every redistributing operator over a result '
-          'argument before and after a discard; seeded histories of 2..6 (quick) / 2..10 (thorough) operations follow, on local p=4 and a testsystem '
+          'argument before and after a discard, and six pairs of different redistributions of the same result inside one Func (two combiners, two '
+          'widths, with and without combiner) joined by a Cogroup; seeded histories of 2..6 (quick) / 2..10 (thorough) operations follow, on local p=4 and a testsystem '
           'with 50 ms keepalive. Oracle at the API boundary: every successful scan yields the reference rows of that result; a Func over results '
           'succeeds with the reference rows of the derived program, also after discards (ancestors of a discarded result count as discarded); a scan '
           'of a discarded/lost result returns the reference rows or an error; nothing may fail on intact results; every operation returns. '
@@ -187,7 +201,7 @@ PROPS = {
           'Non-trivial: a fault fired, a retry happened, or a concurrent history was checked.',
           nbatch=(8, 16), must_observe=['ops_faulted', 'resumptions', 'budget_exhaustions_reported', 'reads_verified', 'porcupine_histories_ok']),
  'C16': P('exploration',
-          'four monitors. (a) codec: 200 (quick) / 5000 (thorough) generated argument lists for a Func with parameters (int, string, float64, []int, '
+          'five monitors. (a) codec: 200 (quick) / 5000 (thorough) generated argument lists for a Func with parameters (int, string, float64, []int, '
           'map, struct, *struct, interface{}, interface{}, Slice) -- boundary scalars, nil/empty/non-empty slices and maps, zero and nested structs, '
           'nil and non-nil pointers, interface parameters holding int/string/struct/pointer/[]string/map/nil -- are encoded as the executor does and '
           'decoded as a worker does (verif exports); every argument must come back equal (nil and empty slices/maps are identified, as gob does). '
@@ -197,20 +211,27 @@ PROPS = {
           'chan) passed through an interface parameter: Run must return an error within the watchdog with zero Worker.Run RPCs observed by the '
           'interposer. (d) FuncLocationsDiff over all pairs of location lists over a 3-letter alphabet up to length 4 (14641 pairs; thorough 5: '
           '132496): nil iff equal, and the script (drop "- ", keep plain, insert "+ ") transforms the first list into the second; exhaustive. '
+          '(e) result graphs on fresh workers: every DAG of 3-4 (thorough 5) results in which each Func consumes two earlier results (40 / 616 '
+          'shapes) is run on a testsystem of 1-proc machines; the last Func has 6 shards so that it runs on machines that have compiled none of the '
+          'earlier invocations (fresh=scale), or every machine is killed before it (fresh=kill; quick: every 4th shape): it must succeed with the '
+          'reference rows (after a kill the documented give-up is counted, not flagged). '
           'Non-trivial: every case that completed.',
-          nbatch=(8, 16), must_observe=['arg_lists_roundtripped', 'e2e_invocations', 'e2e_with_result_argument', 'unencodable_rejected', 'location_list_pairs_diffed']),
+          nbatch=(8, 16), must_observe=['arg_lists_roundtripped', 'e2e_invocations', 'e2e_with_result_argument', 'unencodable_rejected', 'location_list_pairs_diffed',
+                                        'result_graphs_evaluated_on_fresh_workers', 'graph_compile_rpcs_for_last_func']),
  'C02': P('fault_enumeration',
           'cases = (program of the fault suite {map-only, reduce, cogroup, fold, two-stage shuffle, reused result}, kill plan). Kill plans: none; one '
           'kill at (RPC method in {Worker.Compile, Run, Stat, Read, FuncLocations}, k-th call of that method, before forwarding | after the reply was '
           'received and before it is handed back) of the machine addressed, for every ordinal up to a per-method bound taken from failure-free traces '
-          '(thorough; quick: first/middle/last ordinal); a kill of a random machine after the k-th Worker.Run; seeded pairs of kills (12 / 500). Read '
+          '(thorough; quick: first/middle/last ordinal); held-reply kills: the complete reply of the k-th Worker.Run is taken off the wire, its '
+          'machine is killed, and the reply is delivered once the executor has logged the loss of that machine; a kill of a random machine after the k-th Worker.Run; seeded pairs of kills (12 / 500). Read '
           'ordinals beyond those of the run hit the final scan. Every case runs in a fresh session on a testsystem (2 procs per machine, keepalive '
           '50/100 ms, fast bounded read-retry policy) with machine combiners off; kills are performed by an RPC interposer around the testsystem\'s '
           'HTTP client. Oracle: Run+scan succeed with exactly the reference rows, or an error is reported; after a single kill an error from Run must '
-          'be the documented give-up; a run that neither returns within 150 s nor shows RPC activity for 100 s is a hang (else inconclusive). '
+          'be the documented give-up, and after a held-reply kill (the loss was recorded before the completion was learnt of, replacements available) '
+          'any error is a violation; a run that neither returns within 150 s nor shows RPC activity for 100 s is a hang (else inconclusive). '
           'Non-trivial: a machine was actually killed.',
           nbatch=(16, 16), timeout=(1200, 3400),
-          must_observe=['machines_killed', 'recoveries', 'runs_correct']),
+          must_observe=['machines_killed', 'recoveries', 'runs_correct', 'replies_delivered_after_their_machine_was_seen_stopped']),
 }
 
 META = {
